@@ -79,14 +79,16 @@ def run(rep, tier, seed):
         cut_sets = [None]
         if mode == "allcuts":
             cut_sets = "ALL"
-        s0 = noisecases.Session(expected)
+        with common.debug_logging(len(lines) % 3 == 0):
+            s0 = noisecases.Session(expected)
         st = noisecases.Stream(name, msgs)
         st.build(s0.client_hs)
         total = sum(len(f["real"]) for f in st.frames)
         sessions = []
         if cut_sets == "ALL":
             for p in range(total + 1):
-                s1 = noisecases.Session(expected)
+                with common.debug_logging(len(lines) % 3 == 0):
+                    s1 = noisecases.Session(expected)
                 st1 = noisecases.Stream(name, msgs)
                 st1.build(s1.client_hs)
                 sessions.append((s1, st1, [p]))
@@ -116,7 +118,9 @@ def run(rep, tier, seed):
                 pts = noisecases.chunkings(rng, total, mode)
             sessions.append((s0, st, pts))
         for s1, st1, pts in sessions:
-            ml, il, calls, info = s1.feed(st1.frames, pts)
+            # every third session runs with the library's debug logging on (records discarded): same observable behaviour
+            with common.debug_logging(len(lines) % 3 == 0):
+                ml, il, calls, info = s1.feed(st1.frames, pts)
             lines.append(ml)
             impls.append(il)
             ok_name = accept(name, expected)
@@ -153,13 +157,23 @@ def run(rep, tier, seed):
                     if f"FATAL:{want}" not in flat or f"RERR:{want}" not in flat:
                         rep.violation("C03/bad-name-error", f"name mismatch must be reported as BadName carrying {name!r}; observed {flat[:6]}", replay)
             metas.append(replay)
+    # ---- frames near the 16-bit limits (a length of 2^15 or more must not be read as negative)
+    for size in (32751, 32752, 32767, 32768, 40000, 65515):
+        for mode in ("one", "frames", "random"):
+            got, want = big_frame_probe(rng, size, mode)
+            rep.case(("big-frame", size, mode), True, sample={"big_frame_payload": size, "chunking": mode, "delivered": [(t, n) for t, n in got]})
+            rep.bump("big-frame")
+            if got != want:
+                rep.violation("C03/honest-session", f"honest responder, one message of {size} payload bytes between two small ones, chunking '{mode}': delivered (type, length) {got}, sent {want}",
+                              {"kind": "impl-case", "variant": "big-frame", "size": size, "chunking": mode})
     # ---- the same sessions through the real APIConnection / APIClient: what the responder encrypted right behind its handshake
     # frame is delivered whatever the segmentation, and the name rule is applied afresh in every session of a client
     from vlib import simnet
     for trial in range(12 if tier == "quick" else 80):
         k = rng.choice([1, 2, 3, 5])
         mode = ["one", "frames", "bytes", "random"][trial % 4]
-        got, want, err = simnet.run(lambda loop: conn_early_data_case(loop, rng, k, mode))
+        with common.debug_logging(trial % 2 == 1):
+            got, want, err = simnet.run(lambda loop: conn_early_data_case(loop, rng, k, mode, debug=trial % 2 == 1))
         rep.case(("conn-early", k, mode, trial), True, sample={"conn_early_data": {"messages": k, "chunking": mode, "delivered": len(got)}})
         rep.bump("conn-early:" + mode)
         if got != want or err:
@@ -187,7 +201,36 @@ def run(rep, tier, seed):
         rep.proof_broken(rep.broken[0], rep.broken[1])
 
 
-async def conn_early_data_case(loop, rng, k, mode):
+def big_frame_probe(rng, size, mode):
+    from vlib import noisesim
+    psk = bytes(range(1, 33))
+    resp = noisesim.Responder(psk, b"dev")
+    sess = noisesim.ImplSession(noisesim.b64(psk), None)
+    sess.op("made")
+    hs_frame, _ = resp.handshake_frames(noisesim.split_frames(sess.writes[0])[1][1:])
+    sess.op("data", resp.hello_frame() + hs_frame)
+    msgs = [(26, b"ab"), (300, rng.randbytes(size)), (7, b"")]
+    parts = [resp.data_frame(t, p)[0] for t, p in msgs]
+    stream = b"".join(parts)
+    if mode == "one":
+        chunks = [stream]
+    elif mode == "frames":
+        chunks = parts
+    else:
+        cuts = sorted(rng.randrange(0, len(stream) + 1) for _ in range(4))
+        chunks = [stream[a:b] for a, b in zip([0] + cuts, cuts + [len(stream)])]
+    got = []
+    for c in chunks:
+        for e in sess.op("data", c):
+            if isinstance(e, str) and e.startswith("D:"):
+                _, t, p = e.split(":")
+                got.append((int(t, 16), 0 if p == "-" else len(p) // 2))
+            elif isinstance(e, str) and (e.startswith("FATAL") or e.startswith("RAISE")):
+                got.append((e, 0))
+    return got, [(t, len(p)) for t, p in msgs]
+
+
+async def conn_early_data_case(loop, rng, k, mode, debug=False):
     """Noise session on a real APIConnection; the device encrypts k messages immediately after its handshake frame."""
     from aioesphomeapi import api_pb2 as pb
     from aioesphomeapi.connection import APIConnection, ConnectionParams
@@ -197,7 +240,7 @@ async def conn_early_data_case(loop, rng, k, mode):
     psk = bytes(range(1, 33))
     params = ConnectionParams(addresses=["10.0.0.1"], port=6053, password=None, client_info="v", keepalive=20.0,
                               zeroconf_manager=ZeroconfManager(), noise_psk=noisesim.b64(psk), expected_name=None)
-    conn = APIConnection(params, lambda e: None, False, None)
+    conn = APIConnection(params, lambda e: None, debug, None)
     got = []
     conn.add_message_callback(lambda m: got.append(("sensor", m.key)), (pb.SensorStateResponse,))
     conn.add_message_callback(lambda m: got.append(("log", m.message)), (pb.SubscribeLogsResponse,))
